@@ -144,7 +144,7 @@ func (c *FenceConn) BeginTx(ctx context.Context, opts driver.TxOptions) (driver.
 		return nil
 	}
 
-	if err := WithFence(ctx, fenceTx, emptyCallback); err != nil {
+	if err = WithFence(ctx, fenceTx, emptyCallback); err != nil {
 		return nil, err
 	}
 
